@@ -105,6 +105,12 @@ where
         let start_pos = self.last_position_written_to_file as usize;
         self.destination.write_all(&buffer[start_pos..])?;
         self.last_position_written_to_file = buffer.position();
+        #[cfg(mdw_verif)]
+        crate::verif_hooks::emit(
+            "flush",
+            &[("len", buffer.len() as i64), ("idx", self.curr_idx as i64)],
+            Some(&buffer[..]),
+        );
         Ok(())
     }
 }
